@@ -24,10 +24,15 @@ var c01Small = []string{"and", "or", "xor", "nand", "nor", "not", "xnor", "adc",
 type c01Arch struct {
 	rsize, r, n, m, l, o int
 	ops                  []string
+	hwopt                string // "" or "<opcode>:<reg>+<reg>;...": onlydestregs optimisation derived from a program's register use
 }
 
 func (a c01Arch) key() string {
-	return fmt.Sprintf("Rsize=%d R=%d N=%d M=%d L=%d O=%d ops(%d)=%s", a.rsize, a.r, a.n, a.m, a.l, a.o, len(a.ops), shortOps(a.ops))
+	k := fmt.Sprintf("Rsize=%d R=%d N=%d M=%d L=%d O=%d ops(%d)=%s", a.rsize, a.r, a.n, a.m, a.l, a.o, len(a.ops), shortOps(a.ops))
+	if a.hwopt != "" {
+		k += " onlydestregs{" + a.hwopt + "}"
+	}
+	return k
 }
 
 func shortOps(ops []string) string {
@@ -39,8 +44,15 @@ func shortOps(ops []string) string {
 }
 
 func (a c01Arch) args() []string {
-	return []string{strconv.Itoa(a.rsize), strconv.Itoa(a.r), strconv.Itoa(a.n), strconv.Itoa(a.m), strconv.Itoa(a.l), strconv.Itoa(a.o), strings.Join(a.ops, ",")}
+	r := []string{strconv.Itoa(a.rsize), strconv.Itoa(a.r), strconv.Itoa(a.n), strconv.Itoa(a.m), strconv.Itoa(a.l), strconv.Itoa(a.o), strings.Join(a.ops, ",")}
+	if a.hwopt != "" {
+		r = append(r, "hwopt="+a.hwopt)
+	}
+	return r
 }
+
+// opcodes of the co-implemented set whose generators consult the onlydestregs requirement
+var c01DestRegOps = map[string]bool{"dec": true, "inc": true, "jz": true, "rset": true}
 
 func c01Ops(rsize int) []string {
 	ops := append([]string{}, c01AllSizes...)
@@ -60,21 +72,28 @@ func C01(tier string) int {
 	var archs []c01Arch
 	for _, rs := range []int{8, 16} {
 		for _, r := range []int{1, 2} {
-			archs = append(archs, c01Arch{rs, r, 1, 1, 0, 3, c01Ops(rs)})
+			archs = append(archs, c01Arch{rs, r, 1, 1, 0, 3, c01Ops(rs), ""})
 		}
 	}
-	archs = append(archs, c01Arch{8, 2, 2, 2, 0, 2, []string{"add", "i2r", "inc", "j", "jz", "r2o", "rset"}})
-	archs = append(archs, c01Arch{8, 1, 0, 0, 0, 3, []string{"inc", "nop"}})
-	archs = append(archs, c01Arch{8, 2, 1, 0, 0, 3, []string{"addi", "inc", "nop"}}, c01Arch{16, 1, 2, 0, 0, 3, []string{"addi", "nop"}})
+	archs = append(archs, c01Arch{8, 2, 2, 2, 0, 2, []string{"add", "i2r", "inc", "j", "jz", "r2o", "rset"}, ""})
+	archs = append(archs, c01Arch{8, 1, 0, 0, 0, 3, []string{"inc", "nop"}, ""})
+	// hardware optimisation derived from a program: destination registers per opcode
+	hwOps := []string{"add", "cpy", "dec", "i2r", "inc", "j", "jz", "nop", "r2o", "rset"}
+	archs = append(archs, c01Arch{8, 2, 1, 1, 0, 3, hwOps, "dec:r1;inc:r0+r2;jz:r3;rset:r0+r1+r2+r3"},
+		c01Arch{16, 2, 1, 1, 0, 3, hwOps, "inc:r0;dec:r1+r3;rset:r2"},
+		c01Arch{8, 1, 1, 1, 0, 3, hwOps, "inc:r1;dec:r0;jz:r0+r1;rset:r0"})
+	archs = append(archs, c01Arch{8, 2, 1, 0, 0, 3, []string{"addi", "inc", "nop"}, ""}, c01Arch{16, 1, 2, 0, 0, 3, []string{"addi", "nop"}, ""})
 	if tier == "thorough" {
 		for _, rs := range []int{32, 64} {
 			for _, r := range []int{1, 2, 3} {
-				archs = append(archs, c01Arch{rs, r, 1, 1, 0, 3, c01Ops(rs)})
+				archs = append(archs, c01Arch{rs, r, 1, 1, 0, 3, c01Ops(rs), ""})
 			}
 		}
-		archs = append(archs, c01Arch{8, 3, 2, 2, 0, 4, c01Ops(8)}, c01Arch{16, 3, 1, 2, 0, 2, c01Ops(16)},
-			c01Arch{8, 2, 1, 1, 0, 3, []string{"add", "i2r", "r2o"}}, c01Arch{16, 2, 0, 1, 0, 3, []string{"inc", "r2o"}},
-			c01Arch{32, 2, 2, 1, 0, 4, []string{"add", "cpy", "i2r", "inc", "j", "jz", "mult", "r2o", "rset"}})
+		archs = append(archs, c01Arch{8, 3, 2, 2, 0, 4, c01Ops(8), ""}, c01Arch{16, 3, 1, 2, 0, 2, c01Ops(16), ""},
+			c01Arch{8, 2, 1, 1, 0, 3, []string{"add", "i2r", "r2o"}, ""}, c01Arch{16, 2, 0, 1, 0, 3, []string{"inc", "r2o"}, ""},
+			c01Arch{32, 2, 2, 1, 0, 4, []string{"add", "cpy", "i2r", "inc", "j", "jz", "mult", "r2o", "rset"}, ""},
+			c01Arch{32, 3, 1, 1, 0, 3, hwOps, "inc:r0+r7;dec:r1;jz:r2+r5;rset:r0+r1+r2"},
+			c01Arch{64, 2, 1, 1, 0, 3, hwOps, "inc:r3;dec:r3;jz:r0;rset:r1+r2"})
 	}
 	// generated HDL per architecture, from the current tree
 	designs := map[string]*vlog.Design{}
@@ -113,10 +132,13 @@ func C01(tier string) int {
 			continue
 		}
 		for _, op := range a.ops {
+			if a.hwopt != "" && c01DestRegOps[op] && !strings.Contains(";"+a.hwopt, ";"+op+":") {
+				continue // the program the optimisation was derived from does not use this opcode at all
+			}
 			name := a.key() + " op=" + op
 			archOf[name] = a
 			cfgs = append(cfgs, Config{Name: name, Func: "zzC01Step",
-				Args: []Arg{I(a.rsize), I(a.r), I(a.n), I(a.m), I(a.l), I(a.o), S(strings.Join(a.ops, ",")), S(op)}})
+				Args: []Arg{I(a.rsize), I(a.r), I(a.n), I(a.m), I(a.l), I(a.o), S(strings.Join(a.ops, ",")), S(op), S(a.hwopt)}})
 		}
 	}
 	cfgs = FilterConfigs(cfgs)
